@@ -394,6 +394,7 @@ def check_c02(prog, rep, tier, cfg):
     layout.zeroing_after_wrapping(prog, rep, "C02.g")
     # ---------------------------------------------------------------- C02.h same text except the documented normalisations
     text.documented_normalisations(prog, rep, "C02.h")
+    text.characters_compared_as_characters(prog, rep, "C02.j")
     # ---------------------------------------------------------------- C02.i who may change a token's kind, and which tokens
     R = "C02.i"
     writers = {}
